@@ -298,6 +298,76 @@ def e2e_roundtrip(ctx, names, kind_out, opts, second=None, forms=None):
         e2e.unload(m)
 
 
+def typeddict_inheritance(base_key, own_key, extra_key):
+    """TypedDict output: a class that inherits a key from a base and declares a key of its own whose sanitised spelling is the same;
+    every wire name must be a key of the subclass"""
+    import typing
+    doc = {"definitions": {"Base": {"type": "object", "properties": {base_key: {"type": "integer"}, "plain": {"type": "string"}}},
+                           "Child": {"allOf": [{"$ref": "#/definitions/Base"}], "type": "object",
+                                     "properties": {own_key: {"type": "integer"}, extra_key: {"type": "integer"}}}}}
+    g = e2e.generate(json.dumps(doc), kind="typing.TypedDict")
+    if g.timeout:
+        return "generate() does not terminate"
+    if not g.ok:
+        return None
+    if e2e.parses(g.text):
+        return "output does not parse"
+    m, err = e2e.load_module(g.text, "typing.TypedDict")
+    try:
+        if err:
+            return None
+        C = getattr(m, "Child", None)
+        if C is None:
+            return None
+        keys = set(getattr(C, "__required_keys__", ())) | set(getattr(C, "__optional_keys__", ()))
+        missing = [k for k in (base_key, own_key, extra_key, "plain") if k not in keys]
+        if missing:
+            return f"TypedDict Child (inherits {base_key!r}, declares {own_key!r} and {extra_key!r}) has no key for the wire names {missing}"
+        return None
+    finally:
+        e2e.unload(m)
+
+
+def discriminator_roundtrip(pname, declared, kind_out, opts):
+    """a discriminated union whose discriminator property needs renaming; members declare the property or leave it to the generator"""
+    def member(tag):
+        props = {"name": {"type": "string"}}
+        if declared:
+            props[pname] = {"type": "string"}
+        return {"type": "object", "properties": props, "required": ["name"] + ([pname] if declared else [])}
+    doc = {"openapi": "3.0.0", "info": {"title": "t", "version": "1"}, "paths": {},
+           "components": {"schemas": {"Cat": member("Cat"), "Dog": member("Dog"),
+                                      "Owner": {"type": "object", "required": ["pet"],
+                                                "properties": {"pet": {"oneOf": [{"$ref": "#/components/schemas/Cat"}, {"$ref": "#/components/schemas/Dog"}],
+                                                                       "discriminator": {"propertyName": pname}}}}}}}
+    g = e2e.generate(json.dumps(doc), kind=kind_out, file_type="openapi", **opts)
+    if g.timeout:
+        return "generate() does not terminate"
+    if not g.ok:
+        return None
+    if e2e.parses(g.text):
+        return "output does not parse"
+    m, err = e2e.load_module(g.text, kind_out)
+    try:
+        if err:
+            return None
+        O = getattr(m, "Owner", None)
+        if O is None:
+            return None
+        for tag in ("Cat", "Dog"):
+            data = {"pet": {pname: tag, "name": "rex"}}
+            try:
+                obj = O.model_validate(data) if kind_out.startswith("pydantic_v2") else O.parse_obj(data)
+                back = obj.model_dump(by_alias=True) if kind_out.startswith("pydantic_v2") else obj.dict(by_alias=True)
+            except Exception as e:  # noqa: BLE001
+                return f"an object tagged {pname!r}: {tag!r} is rejected: {str(e)[:120]}"
+            if back != data:
+                return f"dump by alias {back!r} != input {data!r}"
+        return None
+    finally:
+        e2e.unload(m)
+
+
 def falsify(ctx):
     rng = ctx.rng("fals")
     todo = []
@@ -350,6 +420,23 @@ def falsify(ctx):
         if why:
             ctx.violation(f"e2e:{kind_out}:{names!r}:{second!r}:{opts}", f"property names {names!r} / inner {second!r} ({kind_out}, {opts}): {why}",
                           {"names": names, "second": second, "kind": kind_out, "opts": opts, "why": why})
+    for base_key, own_key in (("content-type", "content_type"), ("content_type", "content-type"), ("a b", "a_b"), ("class", "class_"), ("x.y", "x-y"), ("n", "m")):
+        for extra_key in ("x-rate", "plain2"):
+            ctx.count("eval_e2e")
+            ctx.nontrivial(("td-inherit", base_key, own_key, extra_key))
+            why = typeddict_inheritance(base_key, own_key, extra_key)
+            if why:
+                ctx.violation(f"td-inherit:{base_key}:{own_key}:{extra_key}", why, {"td_inherit": [base_key, own_key, extra_key], "why": why})
+    for pname in ("pet-type", "@type", "class", "_kind", "petType", "kind"):
+        for declared in (False, True):
+            for kind_out in ("pydantic_v2.BaseModel", "pydantic.BaseModel"):
+                opts = {"snake_case_field": True} if pname == "petType" else {}
+                ctx.count("eval_e2e")
+                ctx.nontrivial(("disc", pname, declared, kind_out))
+                why = discriminator_roundtrip(pname, declared, kind_out, opts)
+                if why:
+                    ctx.violation(f"disc:{pname}:{declared}:{kind_out}", f"discriminator {pname!r} (declared by the members: {declared}, {kind_out}, {opts}): {why}",
+                                  {"disc": [pname, declared, kind_out, opts], "why": why})
     # names that coincide after sanitation x how each of the two members is declared x both orders
     pairs = [("a-b", "a_b"), ("x y", "x_y"), ("class", "class_"), ("1a", "field_1a"), ("copy", "copy_"), ("A", "a"), ("a.b", "a_b")]
     fams = []
@@ -373,6 +460,10 @@ def falsify(ctx):
 
 def replay_finding(ctx, f):
     r = f["replay"]
+    if "td_inherit" in r:
+        return typeddict_inheritance(*r["td_inherit"]) is not None
+    if "disc" in r:
+        return discriminator_roundtrip(*r["disc"]) is not None
     if "names" in r:
         return e2e_roundtrip(ctx, r["names"], r["kind"], r["opts"], r.get("second"), r.get("forms")) is not None
     return check_name(r["kind"], r["opts"], r["name"], r.get("excludes")) is not None
@@ -380,7 +471,11 @@ def replay_finding(ctx, f):
 
 def replay(ctx, payload):
     r = payload.get("replay", payload)
-    if "names" in r:
+    if "td_inherit" in r:
+        why = typeddict_inheritance(*r["td_inherit"])
+    elif "disc" in r:
+        why = discriminator_roundtrip(*r["disc"])
+    elif "names" in r:
         why = e2e_roundtrip(ctx, r["names"], r["kind"], r["opts"], r.get("second"), r.get("forms"))
     elif "name" in r:
         why = check_name(r["kind"], r["opts"], r["name"], r.get("excludes"))
